@@ -75,6 +75,11 @@ def p2_structs(reduced=False):
     p.tag("timer1", timer, instance_id=next(ids))
     p.tag("aoi1", aoi, instance_id=next(ids))
     p.tag("plain", "DINT", instance_id=next(ids))
+    p.tag("plain2", "DINT", instance_id=next(ids))
+    p.tag("plain3", "INT", instance_id=next(ids))
+    p.tag("ro_tag", "DINT", instance_id=next(ids), access=2)
+    p.tag("none_tag", "DINT", instance_id=next(ids), access=3)
+    p.tag("big_int", "INT", (2100,), instance_id=next(ids))  # 4200 bytes: fragmented at both connection sizes
     if not reduced:
         p.tag("outer_ary", outer, (2,), instance_id=next(ids))
         p.tag("inner_2d", inner, (2, 2), instance_id=next(ids))
